@@ -442,12 +442,55 @@ fn oracle(scn: &ReqRep, g: &World, out: &Outcome, ids: &Ids, viol: &mut Vec<RVio
         let _ = st;
     }
 
-    // client ids are handed out in adoption order, i.e. (the channel is FIFO) registration order
-    let mut by_reg: Vec<(u64, usize)> = (0..nq).filter_map(|j| ids.q_stream[j].and_then(|st| g.streams[st].sent_at).map(|c| (c, j))).collect();
-    by_reg.sort();
-    // requestor_of[cid] = scenario index of the requestor that was given that id
-    let requestor_of: Vec<usize> = by_reg.iter().map(|x| x.1).collect();
-    let cid_of = |j: usize| -> Option<usize> { requestor_of.iter().position(|x| *x == j) };
+    // Which value the router uses as a requestor's routing tag is its own business (a counter from
+    // 0, from 1, shared with the repliers, ...): the tags are LEARNED from what the repliers were
+    // handed. A request is recognised by its body ("q<j>r<n>"), its tag is whatever the router put
+    // into the `cid` header; what is demanded is that every forwarded request carries one, that
+    // all requests of one requestor carry the same one (so a tag the requestor supplied itself
+    // does not survive), and that two requestors never share one.
+    let origin = |f: &Frame| -> Option<usize> {
+        match f {
+            Frame::Message(p) => {
+                let b = &p.message[..];
+                if b.first() != Some(&b'q') {
+                    return None;
+                }
+                let digits: Vec<u8> = b[1..].iter().copied().take_while(|c| c.is_ascii_digit()).collect();
+                if digits.is_empty() || b.get(1 + digits.len()) != Some(&b'r') {
+                    return None;
+                }
+                std::str::from_utf8(&digits).ok()?.parse::<usize>().ok().filter(|j| *j < nq)
+            }
+            _ => None,
+        }
+    };
+    let mut tag_of: Vec<Option<String>> = vec![None; nq];
+    for k in 0..nr {
+        if let Some(si) = ids.r_sink[k] {
+            if reps[k].rejected {
+                continue;
+            }
+            for (_, f) in &g.sinks[si].accepted {
+                if let (Some(j), (Some(t), _)) = (origin(f), strip_tag(f)) {
+                    match &tag_of[j] {
+                        None => tag_of[j] = Some(t),
+                        Some(prev) if *prev != t => {
+                            viol.push(RViol { prop: p02, clause: "reqrep:request-altered-or-mistagged".into(), msg: format!("requests of requestor {j} were handed over with two different routing tags ({prev:?} and {t:?}): a tag is the router's, one per requestor") });
+                        }
+                        _ => {}
+                    }
+                }
+            }
+        }
+    }
+    for j in 0..nq {
+        for j2 in 0..j {
+            if tag_of[j].is_some() && tag_of[j] == tag_of[j2] {
+                viol.push(RViol { prop: p02, clause: "reqrep:request-bad-tag".into(), msg: format!("requestors {j2} and {j} were given the same routing tag {:?}", tag_of[j]) });
+            }
+        }
+    }
+    let requestor_with_tag = |t: &str| -> Option<usize> { tag_of.iter().position(|x| x.as_deref() == Some(t)) };
 
     // ---- requests: at most once, in order, correctly tagged; exactly once under a stable replier
     // all request deliveries in global order
@@ -469,7 +512,7 @@ fn oracle(scn: &ReqRep, g: &World, out: &Outcome, ids: &Ids, viol: &mut Vec<RVio
         match f {
             Frame::Message(p) => {
                 let mut h = p.headers.clone().unwrap_or_default();
-                h.insert("cid".into(), format!("{}", cid_of(j).unwrap_or(usize::MAX)));
+                h.insert("cid".into(), tag_of[j].clone().unwrap_or_default());
                 Some(Frame::Message(MessagePayload { headers: Some(h), message: p.message.clone() }))
             }
             _ => None,
@@ -480,11 +523,11 @@ fn oracle(scn: &ReqRep, g: &World, out: &Outcome, ids: &Ids, viol: &mut Vec<RVio
     let mut delivered_flag: Vec<Vec<Option<(usize, u64)>>> = yl.iter().map(|v| vec![None; v.len()]).collect();
     for (c, k, f) in &deliveries {
         let (tag, _) = strip_tag(f);
-        let j = match tag.as_deref().and_then(|t| t.parse::<usize>().ok()).and_then(|c| requestor_of.get(c).copied()) {
-            Some(j) => j,
+        let j = match (origin(f), tag) {
+            (Some(j), Some(_)) => j,
             _ => {
                 if !scn.hostile || matches!(f, Frame::Message(_)) {
-                    viol.push(RViol { prop: p02, clause: "reqrep:request-bad-tag".into(), msg: format!("R{k} received {} whose routing tag names no requestor", frame_brief(f)) });
+                    viol.push(RViol { prop: p02, clause: "reqrep:request-bad-tag".into(), msg: format!("R{k} received {} which carries no routing tag or is no requestor's request", frame_brief(f)) });
                 }
                 continue;
             }
@@ -556,7 +599,7 @@ fn oracle(scn: &ReqRep, g: &World, out: &Outcome, ids: &Ids, viol: &mut Vec<RVio
             for (c, f) in &g.streams[st].yielded {
                 if let Frame::Message(_) = f {
                     let (tag, stripped) = strip_tag(f);
-                    if let Some(j) = tag.as_deref().and_then(|t| t.parse::<usize>().ok()).and_then(|c| requestor_of.get(c).copied()) {
+                    if let Some(j) = tag.as_deref().and_then(requestor_with_tag) {
                         {
                             if let (Some(qs), Some(qt)) = (ids.q_sink[j], ids.q_stream[j]) {
                                 let adopted = g.streams[qt].first_touch.map_or(false, |t| t < *c);
